@@ -225,6 +225,42 @@ def extract(schema) -> dict:
             'callables': callables, 'deriv': deriv, 'numeric': numeric, 'explicit': explicit}
 
 
+def user_scalars(schema, universe, module='default') -> dict:
+    """User-defined scalars of a harness schema, by the same route as the std tables (schema objects,
+    not text): name -> {'id', 'chain' (own id, then ids of the user-defined ancestors, nearest first),
+    'base' (qualified name of the topmost concrete std base; None for an enum), 'enum' (labels)}.
+    Shape checks: every non-enum user scalar has a concrete std base inside the universe and a single
+    inheritance chain."""
+    from edb.schema import scalars as s_scalars
+    s = schema
+    objs = sorted((o for o in s.get_objects(type=s_scalars.ScalarType)
+                   if str(o.get_name(s)).startswith(module + '::')), key=lambda o: str(o.get_name(s)))
+    ids = {str(o.get_name(s)): i + 1 for i, o in enumerate(objs)}
+    out = {}
+    for o in objs:
+        n = str(o.get_name(s))
+        if o.is_enum(s):
+            out[n] = {'id': ids[n], 'chain': [ids[n]], 'base': None,
+                      'enum': list(o.get_enum_values(s))}
+            continue
+        chain = [ids[n]]
+        for a in o.get_ancestors(s).objects(s):
+            an = str(a.get_name(s))
+            if an in ids:
+                chain.append(ids[an])
+            else:
+                break
+        top = o.get_topmost_concrete_base(s)
+        tn = str(top.get_name(s))
+        if tn not in universe:
+            raise GenError(f'user scalar {n}: topmost concrete base {tn} is outside the scalar universe')
+        bases = o.get_bases(s).objects(s)
+        if len(bases) != 1:
+            raise GenError(f'user scalar {n}: {len(bases)} bases')
+        out[n] = {'id': ids[n], 'chain': chain, 'base': tn, 'enum': None}
+    return out
+
+
 PREAMBLE = '''/-
 GENERATED by harness/gen/types.py from the bootstrapped std schema of /repo — DO NOT EDIT.
 Scalar universe, abstract scalars, ancestor lists, implicit-cast edges and the
